@@ -152,3 +152,23 @@ Example C12_abor_example :
   abor_count (run_it (Some [false; false; true; true])) = 1%nat /\ abor_count (run_it (Some [false; false; false; false; false; false])) = O /\
   okab false (run_it (Some [false; false; true; true])).
 Proof. exact abor_example. Qed.
+
+(* ---- every transfer call with a callback, every state, either type, every server (Counts_Global.v) ---- *)
+From LibFtp Require Bytes_Global Counts_Global.
+
+(* the sizes the callback is notified of add up to the bytes the call read from plus the bytes it wrote to the data
+   connection - completed, cancelled, cut or failing *)
+Theorem C12_callback_counts_what_moved : forall a w, Counts_Global.with_callback a ->
+  exists tr, w_trace (snd (step w a)) = w_trace w ++ tr /\
+    notified (Bytes_Global.ios tr) =
+      (length (net_in_bytes (Bytes_Global.ios tr)) + length (net_out_bytes (Bytes_Global.ios tr)))%nat.
+Proof. exact Counts_Global.step_callback_counts_what_moved. Qed.
+Print Assumptions C12_callback_counts_what_moved.
+
+Example C12_example_counts :
+  let w0 := init_world (mkConfig Passive true TAscii false false) Counts_Global.counts_script in
+  let w1 := snd (steps w0 [AConnect [104] 21 None]) in
+  let tr := skipn (length (w_trace w1)) (w_trace (snd (step w1 (ADownload [102] (Some [false; false; true]) None)))) in
+  notified (Bytes_Global.ios tr) = 5%nat /\ net_in_bytes (Bytes_Global.ios tr) = [1;13;10;3;4] /\
+  net_out_bytes (Bytes_Global.ios tr) = [].
+Proof. exact Counts_Global.counts_example. Qed.
